@@ -6,6 +6,7 @@ CONSTANTS
   MaxTape = 5
   Chunks = {"c1", "c2"}
   AttrVals = {1}
+  RestartKinds = {0, 1}
   Handles = {}
   HandleFlags = {}
   MaxContent = 2
